@@ -1,42 +1,398 @@
 """native replay for C18/C19: Dispatcher subscription bookkeeping and delivery policy"""
+import itertools
+import os
+import weakref
+
 from event_model import DocumentNames
 
 from bluesky.run_engine import Dispatcher
 
+ROOT = os.path.dirname(os.path.dirname(os.path.abspath(__file__)))
+V = {}
+exec(compile(open(os.path.join(ROOT, "contracts/refs/c18_view.py")).read(), "c18_view", "exec"), V)
+DOCNAMES = V["DOCNAMES"]
+
 
 def same_callable(model, info, art):
+    """the scenario of the counter-model: f subscribed to 'event', then to `second subscription kind`; one of the tokens removed"""
+    dec = {a: b for a, b in (art.get("decisions") or [])}
+    kind2 = dec.get("second subscription kind", "event")
+    removed = dec.get("token removed", "second")
     d = Dispatcher()
     got = []
 
     def f(name, doc):
         got.append(name)
     t1 = d.subscribe(f, "event")
-    t2 = d.subscribe(f, "event")
-    d.unsubscribe(t2)
+    t2 = d.subscribe(f, kind2)
+    gone = t1 if removed == "first" else t2
+    d.unsubscribe(gone)
     d.process(DocumentNames.event, {"x": 1})
-    ok = t1 != t2 and got == ["event"]
-    return ("contradicted" if ok else "confirmed"), f"subscribe(f) twice -> tokens {t1}, {t2}; after unsubscribe({t2}) f received {got}"
+    ok = t1 != t2 and len(got) >= 1
+    return ("contradicted" if ok else "confirmed"), (f"subscribe(f, 'event') -> {t1}, subscribe(f, {kind2!r}) -> {t2}; after unsubscribe({gone}) an event "
+                                                     f"document was received {len(got)} time(s) by f")
+
+
+# ------------------------------------------------------------------------------------------------ histories (C18)
+def _callables(log):
+    def mk(label):
+        def cb(name, doc):
+            log.append((label, name))
+        cb.label = label
+        cb.__qualname__ = label
+        return cb
+    return {c: mk(c) for c in ("f", "g")}
+
+
+def _lab(proxy):
+    return getattr(proxy.func, "label", repr(proxy.func))
+
+
+_KEEP = []
+
+
+def _concrete(d):
+    """the fields REP talks about.  The registry's proxy objects seen here are kept alive for the rest of the replay: like the proof
+    (weak references never die, see TRUSTED) the replay judges the code without relying on CPython's reference counting to empty the
+    WeakKeyDictionary of _func_cid_map the moment a registration is deleted"""
+    reg = d.cb_registry
+    _KEEP.extend(p for cd in reg.callbacks.values() for p in cd.values())
+    return {"tokens": {t: list(v) if isinstance(v, (list, tuple)) else [v] for t, v in d._token_mapping.items()},
+            "callbacks": {sig.name: [(cid, _lab(p)) for cid, p in cd.items()] for sig, cd in reg.callbacks.items()},
+            "func_cid": {sig.name: [(_lab(p), cid) for p, cid in m.items()] for sig, m in reg._func_cid_map.items()}}
+
+
+def _snap(v, depth=0):
+    """canonical description of the object graph below v (what 'nothing changed' is judged on)"""
+    nxt = depth + 1
+    if depth > 14:
+        return "..."
+    if v is None or isinstance(v, (int, str, bool, float)):
+        return v
+    if isinstance(v, DocumentNames):
+        return v.name
+    if isinstance(v, itertools.count):
+        return repr(v)
+    if isinstance(v, weakref.WeakKeyDictionary):
+        return ("map", tuple((_snap(k, nxt), _snap(x, nxt)) for k, x in v.items()))
+    if isinstance(v, dict):
+        return ("dict", tuple((_snap(k, nxt), _snap(x, nxt)) for k, x in v.items()))
+    if isinstance(v, (list, tuple)):
+        return (type(v).__name__, tuple(_snap(x, nxt) for x in v))
+    if isinstance(v, (set, frozenset)):
+        return ("set", tuple(sorted(repr(_snap(x, nxt)) for x in v)))
+    if callable(v) and hasattr(v, "__qualname__"):
+        return ("fn", v.__qualname__)
+    if hasattr(v, "__dict__") and type(v).__module__.startswith("bluesky"):
+        return ("obj", type(v).__name__, tuple(sorted((k, _snap(x, nxt)) for k, x in vars(v).items())))
+    return ("host", type(v).__name__)
+
+
+def _clause(obligation):
+    if "never handed out before" in obligation:
+        return "fresh"
+    if "#invariant[REP" in obligation:
+        return "rep"
+    if "changes nothing" in obligation:
+        return "noop"
+    return "deliveries"
+
+
+def _observe(d, log):
+    received = {}
+    for n in DOCNAMES:
+        del log[:]
+        d.process(DocumentNames[n], {"probe": n})
+        received[n] = [lab if name == n else f"{lab}(wrong name {name})" for lab, name in log]
+    del log[:]
+    return received
+
+
+def _verdict(found, clause, ops):
+    mine = [(i, p) for i, k, p in found if k == clause]
+    other = [(i, k, p) for i, k, p in found if k != clause]
+    if mine:
+        i, p = mine[0]
+        return "confirmed", f"history {ops[:i + 1]}: {'; '.join(p[:3])}"
+    return "contradicted", f"history {ops}: clause '{clause}' holds natively after every operation" + (f" (other clauses fail: {other[:2]})" if other else "")
+
+
+def history(model, info, art):
+    """runs the counter-model's history on a real Dispatcher and judges every operation by the same clauses (contracts/refs/c18_view.py)"""
+    ops = list(info["ops"])
+    clause = _clause(art.get("obligation", ""))
+    log = []
+    cbs = _callables(log)
+    d = Dispatcher()
+    view = V["View"]()
+    tokens = []
+    found = []
+    for i, op in enumerate(ops):
+        kind, c, filt, idx = V["parse"](op)
+        noop_before = None
+        raised = []
+        try:
+            if kind == "subscribe":
+                t = d.subscribe(*V["subscribe_args"](c, filt, cbs))
+                p = V["fresh_token_problems"](view, t)
+                if p:
+                    found.append((i, "fresh", p))
+                    break
+                tokens.append(t)
+                view.subscribed(t, c, filt)
+            elif kind == "unsubscribe":
+                t = V["UNKNOWN_TOKEN"] if idx == "unknown" else tokens[idx]
+                if t not in view.subs:
+                    noop_before = _snap(d)
+                d.unsubscribe(t)
+                view.unsubscribed(t)
+            elif kind == "unsubscribe_all":
+                if not view.subs:
+                    noop_before = _snap(d)
+                d.unsubscribe_all()
+                view.unsubscribed_all()
+        except Exception as e:          # noqa: BLE001
+            raised = [f"raised {e!r}"]
+        p_rep = V["rep_problems"](view, _concrete(d))
+        p_del = raised + V["delivery_problems"](view, _observe(d, log))
+        if noop_before is not None:
+            if raised or _snap(d) != noop_before:
+                found.append((i, "noop", raised + ["the state changed"] + p_rep + p_del))
+                break
+            continue
+        if p_rep:
+            found.append((i, "rep", p_rep))
+        if p_del:
+            found.append((i, "deliveries", p_del))
+        if p_rep or p_del:
+            break
+    return _verdict(found, clause, ops)
+
+
+class _Det:
+    parent = None
+    hints = {"fields": []}
+    name = "det"
+
+    def read(self):
+        return {"det": {"value": 1.0, "timestamp": 0.0}}
+
+    def describe(self):
+        return {"det": {"dtype": "number", "shape": [], "source": "x"}}
+
+    def read_configuration(self):
+        return {}
+
+    def describe_configuration(self):
+        return {}
+
+
+RUN_NAMES = ["start", "descriptor", "event", "stop"]
+
+
+def _one_run(det):
+    from bluesky.utils import Msg
+    yield Msg("open_run")
+    yield Msg("create", name="primary")
+    yield Msg("read", det)
+    yield Msg("save")
+    yield Msg("close_run")
+
+
+class _Stop(Exception):
+    pass
+
+
+def engine_history(model, info, art):
+    """runs the counter-model's history on a real RunEngine: permanent operations through RE.subscribe / RE.unsubscribe, `call` as a
+    new RE(plan, subs), `msg` operations as messages of that plan; after every operation inside a call the plan performs one run
+    (start, descriptor, event, stop) and the same clauses are judged (before the first call: by one extra call without subscriptions)"""
+    from bluesky import RunEngine
+    from bluesky.utils import Msg
+    ops = list(info["ops"])
+    clause = _clause(art.get("obligation", ""))
+    log = []
+    cbs = _callables(log)
+    RE = RunEngine({}, context_managers=[])
+    d = RE.dispatcher
+    det = _Det()
+    view = V["View"]()
+    tokens = []
+    found = []
+    returned = []       # what the real Dispatcher.subscribe returned (the per-call subscription's token is not handed to the caller)
+    real_subscribe = d.subscribe
+
+    def recording_subscribe(*a, **k):
+        returned.append(real_subscribe(*a, **k))
+        return returned[-1]
+    d.subscribe = recording_subscribe
+
+    def received():
+        out = {n: [lab for lab, name in log if name == n] for n in RUN_NAMES}
+        del log[:]
+        return out
+
+    def state():
+        return (_snap(d), tuple(sorted(RE._temp_callback_ids, key=repr)))
+
+    def judge_state(i, raised=()):
+        p_rep = V["rep_problems"](view, _concrete(d), set(RE._temp_callback_ids))
+        if p_rep:
+            found.append((i, "rep", p_rep))
+        return bool(p_rep)
+
+    def judge_run(i):
+        p_del = V["delivery_problems"](view, received(), RUN_NAMES)
+        if p_del:
+            found.append((i, "deliveries", p_del))
+        return bool(p_del)
+
+    def fresh(i, t, c, filt, lifetime):
+        p = V["fresh_token_problems"](view, t)
+        if p:
+            found.append((i, "fresh", p))
+            raise _Stop
+        tokens.append(t)
+        view.subscribed(t, c, filt, lifetime)
+
+    def permanent(i, op):
+        """-> True if the history ends here"""
+        kind, c, filt, idx = V["parse"](op)
+        if kind == "subscribe":
+            fresh(i, RE.subscribe(cbs[c], filt), c, filt, "permanent")
+        else:
+            t = tokens[idx]
+            if t not in view.subs:
+                before = state()
+                RE.unsubscribe(t)
+                if state() != before:
+                    found.append((i, "noop", ["the state changed"] + V["rep_problems"](view, _concrete(d), set(RE._temp_callback_ids))))
+                raise _Stop
+            RE.unsubscribe(t)
+            view.unsubscribed(t)
+
+    def plan(i0, segment):
+        # i0: index of the `call` operation; segment: the operations up to the next `call`
+        kind, c, filt, _ = V["parse"](ops[i0])
+        view.call_started()
+        if c is not None:
+            mine = list(returned)
+            if len(mine) != 1:
+                found.append((i0, "fresh", [f"the per-call subscription produced the tokens {mine} (expected one)"]))
+                raise _Stop
+            fresh(i0, mine[0], c, filt, "per-call")
+        bad = judge_state(i0)
+        del log[:]
+        yield from _one_run(det)
+        if judge_run(i0) or bad:
+            raise _Stop
+        for i, op in segment:
+            kind, c, filt, idx = V["parse"](op)
+            if kind == "msg subscribe":
+                t = yield Msg("subscribe", None, cbs[c], filt)
+                fresh(i, t, c, filt, "in-plan")
+            elif kind == "msg unsubscribe":
+                t = tokens[idx]
+                yield (Msg("unsubscribe", None, t) if t % 2 else Msg("unsubscribe", None, token=t))
+                view.unsubscribed(t)
+            else:
+                permanent(i, op)
+            bad = judge_state(i)
+            del log[:]
+            yield from _one_run(det)
+            if judge_run(i) or bad:
+                raise _Stop
+
+    calls = [i for i, op in enumerate(ops) if op.startswith("call")]
+    try:
+        for i, op in enumerate(ops[:calls[0]] if calls else ops):
+            permanent(i, op)
+            if judge_state(i):
+                raise _Stop
+        if not calls:
+            del log[:]
+            RE(_one_run(det))
+            if judge_run(len(ops) - 1):
+                raise _Stop
+        for k, i0 in enumerate(calls):
+            end = calls[k + 1] if k + 1 < len(calls) else len(ops)
+            kind, c, filt, _ = V["parse"](ops[i0])
+            subs = None if c is None else (cbs[c] if filt == "all" else {filt: [cbs[c]]})
+            del returned[:]
+            try:
+                RE(plan(i0, [(i, ops[i]) for i in range(i0 + 1, end)]), subs)
+            except _Stop:
+                raise
+            except Exception as e:      # noqa: BLE001
+                if isinstance(e.__cause__, _Stop) or isinstance(e.__context__, _Stop):
+                    raise _Stop from None
+                found.append((end - 1, "deliveries", [f"raised {e!r}"]))
+                raise _Stop from None
+    except _Stop:
+        pass
+    return _verdict(found, clause, ops)
 
 
 def subscriptions(model, info, art):
+    """the scenario of dispatcher.distinct_callables with the counter-model's choices"""
+    dec = {a: b for a, b in (art.get("decisions") or [])}
+    kind_f = dec.get("f subscribed to", "all")
+    which = dec.get("unsubscribed", "f")
     problems = []
     d = Dispatcher()
     log = []
     f = lambda n, doc: log.append("f")      # noqa: E731
     g = lambda n, doc: log.append("g")      # noqa: E731
-    tf = d.subscribe(f, "all")
+    tf = d.subscribe(f, kind_f)
     tg = d.subscribe(g, "event")
     d.process(DocumentNames.event, {})
     d.process(DocumentNames.start, {})
-    if log != ["f", "g", "f"]:
-        problems.append(f"deliveries {log}")
+    if tf == tg or log != ["f", "g"] + (["f"] if kind_f == "all" else []):
+        problems.append(f"tokens {tf}, {tg}; deliveries {log}")
     log.clear()
-    d.unsubscribe(tf)
-    d.unsubscribe(tf)
+    t = tf if which == "f" else tg
+    d.unsubscribe(t)
+    d.unsubscribe(t)
+    d.unsubscribe(12345)
     d.process(DocumentNames.event, {})
-    if log != ["g"]:
-        problems.append(f"after unsubscribe(f): {log}")
+    if log != (["g"] if which == "f" else ["f"]):
+        problems.append(f"after unsubscribe({which}): {log}")
+    log.clear()
+    d.unsubscribe_all()
+    d.process(DocumentNames.event, {})
+    if log:
+        problems.append(f"after unsubscribe_all: {log}")
     return ("confirmed" if problems else "contradicted"), "; ".join(problems) or "subscriptions behave as documented"
+
+
+def engine_tokens(model, info, art):
+    """the scenario of engine.tokens on a real RunEngine: a permanent, an in-plan and a per-call subscription to 'event'; the next call
+    must deliver to the permanent one only; the permanent one ends with its token"""
+    from bluesky import RunEngine
+    from bluesky.utils import Msg
+    log = []
+    mk = lambda lab: (lambda n, doc: log.append(lab))       # noqa: E731
+    perm, temp, inplan = mk("permanent"), mk("per-call"), mk("in-plan")
+    RE = RunEngine({}, context_managers=[])
+    det = _Det()
+    tp = RE.subscribe(perm, "event")
+
+    def plan1():
+        yield Msg("subscribe", None, inplan, "event")
+        yield from _one_run(det)
+    RE(plan1(), {"event": [temp]})
+    before, log[:] = sorted(log), []
+    RE(_one_run(det))
+    after, log[:] = list(log), []
+    left = set(RE._temp_callback_ids)
+    RE.unsubscribe(tp)
+    RE(_one_run(det))
+    problems = []
+    if before != sorted(["permanent", "in-plan", "per-call"]) or after != ["permanent"] or left:
+        problems.append(f"first call delivered an event to {before}, the next call to {after}; temporary ids left: {left}")
+    if log:
+        problems.append(f"after RE.unsubscribe({tp}) an event was still delivered to {log}")
+    return ("confirmed" if problems else "contradicted"), "; ".join(problems) or f"subscriptions end as asked (temporary ids left: {left})"
 
 
 def policy(model, info, art):
